@@ -722,6 +722,13 @@ def plan(tier, seed):
              for i in range(13)]
     specs += [{"kind": "client", "seed": seed * 100 + 50 + i, "n": nc}
               for i in range(3)]
+    runs = 1500 if tier == 'quick' else 60000
+    specs += [{"kind": "atheris", "mode": "bytes", "seed": seed, "runs": runs,
+               "corpus": "empty"},
+              {"kind": "atheris", "mode": "bytes", "seed": seed + 1,
+               "runs": runs, "corpus": "seeded"},
+              {"kind": "atheris", "mode": "hyp", "seed": seed + 2,
+               "runs": runs // 2, "corpus": "empty"}]
     return specs
 
 
@@ -750,8 +757,65 @@ class _SkStats(Stats):
                     self.samples.append(case)
 
 
+def _run_atheris(spec):
+    """Coverage-guided campaign in a subprocess (vfw/fuzz_c06.py)."""
+    import os
+    import re
+    import shutil
+    import subprocess
+    import sys
+    root = os.path.dirname(os.path.dirname(os.path.abspath(__file__)))
+    probe = subprocess.run(
+        [sys.executable, '-c', 'import sys; sys.path.insert(0, %r); '
+         'import atheris' % os.path.join(root, '.deps')],
+        stdout=subprocess.PIPE, stderr=subprocess.PIPE)
+    if probe.returncode != 0:
+        # setup_cmd installs atheris into .deps; without it the campaign is
+        # skipped (counted), the Hypothesis shards still decide the property
+        return {"evaluations": 0, "nontrivial": [], "samples": [],
+                "known_hits": {}, "violations": [],
+                "counters": {"atheris-unavailable": 1}}
+    out = os.path.join(root, '.work', 'atheris-c06-%s-%s-%d' % (
+        spec["mode"], spec["corpus"], spec["seed"]))
+    shutil.rmtree(out, ignore_errors=True)
+    corpus = os.path.join(out, 'corpus')
+    os.makedirs(corpus)
+    if spec["corpus"] == 'seeded' and spec["mode"] == 'bytes':
+        # a few small valid inputs: frames circusctl's message() builds
+        for i, m in enumerate([b'\x00' + b'{"command": "list"}',
+                               b'\x01\x05\x01\x00', b'\x01\x12\x02\x00\x00',
+                               b'\x02\x01\x17\x03\x0f\x00']):
+            with open(os.path.join(corpus, 'seed%d' % i), 'wb') as f:
+                f.write(m)
+    cmd = [sys.executable, os.path.join(root, 'vfw', 'fuzz_c06.py'),
+           spec["mode"], out, corpus, '-runs=%d' % spec["runs"],
+           '-seed=%d' % (spec["seed"] + 1), '-max_len=512',
+           '-artifact_prefix=%s/' % out]
+    env = dict(os.environ, PYTHONHASHSEED='0')
+    p = subprocess.run(cmd, stdout=subprocess.PIPE, stderr=subprocess.STDOUT,
+                       env=env, text=True, cwd=root)
+    m = re.search(r'Done (\d+) runs', p.stdout)
+    cov = re.findall(r'cov: (\d+)', p.stdout)
+    res = {"evaluations": int(m.group(1)) if m else 0, "nontrivial": [],
+           "samples": [], "known_hits": {}, "violations": [],
+           "counters": {"atheris-%s-%s-runs" % (spec["mode"],
+                                                spec["corpus"]):
+                        int(m.group(1)) if m else 0,
+                        "atheris-final-coverage": int(cov[-1]) if cov else 0}}
+    vf = os.path.join(out, 'violation.json')
+    if os.path.exists(vf):
+        with open(vf) as f:
+            res["violations"].append(json.load(f))
+    elif p.returncode != 0 and not m:
+        res["error"] = "atheris campaign failed:\n" + p.stdout[-2000:]
+    shutil.rmtree(out, ignore_errors=True)
+    return res
+
+
 def run_shard(spec):
     stats = _SkStats()
+    if spec["kind"] == 'atheris':
+        return _run_atheris(spec)
     if spec["kind"] == 'daemon':
         found = hyp_search(_daemon_strategy(), execute_daemon, stats,
                            spec["seed"], spec["n"], known=spec["known"],
